@@ -953,6 +953,9 @@ class ArgSorted(object):
         self.ascending = ascending
         self.stable = stable
 
+    def __repr__(self):
+        return "ArgSorted(of=%r, ascending=%r, stable=%r)" % ([v for _, v in self.pairs], self.ascending, self.stable)
+
     def check(self, got):
         vals = dict(self.pairs)
         n = len(self.pairs)
